@@ -160,12 +160,16 @@ where
         })
     }
 
-    fn remove_link(&mut self, link: &L) {
+    /// Removes a link, returning whether it was registered.
+    fn remove_link(&mut self, link: &L) -> bool {
         let Links { links, ownership } = self;
         if let Some(Link { keys, .. }) = links.remove(link) {
             for k in keys {
                 ownership.remove(&k);
             }
+            true
+        } else {
+            false
         }
     }
 }
